@@ -80,6 +80,17 @@ def jsonable(x):
 
 
 def main(mod, argv=None):
+    try:
+        return _main(mod, argv)
+    except BaseException as e:  # noqa - never let a crash look like a verdict
+        if isinstance(e, SystemExit):
+            raise
+        traceback.print_exc()
+        print('HARNESS-ERROR: %s: %s' % (type(e).__name__, e), file=sys.stderr)
+        return 2
+
+
+def _main(mod, argv=None):
     argv = sys.argv[1:] if argv is None else argv
     tier = os.environ.get('VERIF_TIER', 'quick')
     replay_path = None
